@@ -5,6 +5,9 @@
 (*   call(fn, init, b)     a state function is called, sees init, will behave as b      *)
 (*   cleanup(reason, b)    the cleanup function is called, sees cleanup_reason          *)
 (*   hook(to)              the transition hook is called                                *)
+(*   new(s, kw)            the machine is constructed (first event)                     *)
+(*   rejected              start() with a forbidden keyword raised (machine unchanged); *)
+(*                         a post carrying such a keyword (bad # "-") is not explained  *)
 (*   post(task)            start()/stop() completed - from a second thread between two  *)
 (*                         lines of cycle(), or re-entrantly from inside a state        *)
 (*                         function / the hook / the cleanup function                   *)
@@ -20,7 +23,11 @@ VARIABLES t, l
 ASSUME \A i \in 1 .. NT : TLCSet(i, 1)
 
 Ev == Traces[t][l]
-TInit == Init /\ t \in 1 .. NT /\ l = 1
+(* the first event of a trace is the construction: StateMachine(statefunc=s | None, **kw) *)
+TInit == /\ t \in 1 .. NT /\ l = 2
+         /\ LET e == Traces[t][1] IN
+              /\ e.ev = "new"
+              /\ InitWith(e.kw, IF e.s = NoneS THEN NoTask ELSE StartTask(e.s, NoKw, NoneS))
 
 Matches(st) == /\ st.statefunc = statefunc' /\ st.init = init' /\ st.task = next_task'
                /\ st.cleanup_none = (cleanup' = NoneS) /\ st.reason = cleanup_reason'
@@ -33,7 +40,8 @@ TStep ==
         \/ Ev.ev = "call" /\ Ev.fn = statefunc /\ Ev.init = init /\ Call(Ev.b)
         \/ Ev.ev = "cleanup" /\ Ev.reason = cleanup_reason /\ ClCall(Ev.b)
         \/ Ev.ev = "hook" /\ Ev.to = nsarg /\ NsHook
-        \/ Ev.ev = "post" /\ Post(Ev.task)
+        \/ Ev.ev = "post" /\ Ev.bad = Absent /\ Post(Ev.task)
+        \/ Ev.ev = "rejected" /\ RejectedStart
         \/ Ev.ev = "end" /\ (Outer \/ AfterCall) /\ pc' = "idle" /\ Matches(Ev.st)
         \/ Ev.ev = "state" /\ pc = "idle" /\ UNCHANGED vars /\ Matches(Ev.st)
   \/ /\ Silent /\ pc' # "idle"
